@@ -27,7 +27,7 @@ RULE = (
 EXHAUSTIVE_PART = "per base configuration: all fault points of the classes body-exception, unserializable, unencodable, k-th filesystem call and LINE failpoints in the loading half and in the save sequence"
 ASSUMPTIONS = ["faults occur only at the enumerated points", "MemoryFS/NativeOSFS subclasses behave like their parents"]
 MONITORS = ["fault_free_control", "body_exception", "unserializable", "unencodable", "fs_call_fault", "line_failpoint", "line_failpoint_loading"]
-REQUIRED = ["stale_backup_of_same_size_present", "output_is_input_under_another_spelling", "body_UnicodeEncodeError", "backup_after_inplace_chart_edit", "body_KeyboardInterrupt", "body_SystemExit", "body_CancelMutation", "body_StopIteration", "body_GeneratorExit",
+REQUIRED = ["noop_body_with_backup_requested", "body_Chained", "stale_backup_of_same_size_present", "output_is_input_under_another_spelling", "body_UnicodeEncodeError", "backup_after_inplace_chart_edit", "body_KeyboardInterrupt", "body_SystemExit", "body_CancelMutation", "body_StopIteration", "body_GeneratorExit",
             "unencodable_utf-8", "unencodable_cp1252", "unencodable_cp932", "unencodable_cp949", "fault_open_w_backup",
             "fault_open_w_output", "fault_write_backup", "fault_write_output", "fault_close", "partial_write",
             "backup_carried_disjunction", "ssc_chart_without_notes", "preexisting_output_file", "surrogate_on_utf8_inplace"]
@@ -67,6 +67,9 @@ def cases(ctx):
         # every combination of format x backup x output x filesystem x detected encoding, one size each
         configs = [c for c in configs if (c["size"] == 5 and (c["output"] != "alias" or c["enc"] in ("utf-8", "cp1252")))
                    or (c["size"] == 1 and c["enc"] == "utf-8" and c["output"] != "alias")]
+    # a body without any net change, with a backup requested, saving in place and to another file
+    configs = configs + [dict(c, body="noop") for c in configs if c["backup"] and c["size"] == 5 and c["enc"] in ("utf-8", "cp932")
+                         and c["output"] in (False, True)]
     for i, c in enumerate(configs):
         if ctx.mine(i):
             yield {"base": c, "failpoints": True, "deep": ctx.tier == "thorough"}
@@ -128,7 +131,7 @@ def enumerate_faults(base, n_props, n_charts, control_trace, line_events, line0_
     faults = []
     script = body_script(base["ext"])
     for exc in ("ValueError", "KeyError", "Custom", "StopIteration", "KeyboardInterrupt", "SystemExit", "GeneratorExit", "CancelMutation",
-                "UnicodeEncodeError", "UnicodeDecodeError", "OSError", "AttributeError", "RuntimeError"):
+                "UnicodeEncodeError", "UnicodeDecodeError", "OSError", "AttributeError", "RuntimeError", "Chained", "InExcept"):
         for p in range(len(script) + 1):
             if not deep and exc not in ("ValueError", "KeyboardInterrupt", "CancelMutation") and p not in (0, 3, len(script)):
                 continue  # quick tier: every position for three classes, first / middle / last for the others
@@ -217,18 +220,20 @@ def run(base, fault, want_lines=False):
                 snaps["S0"] = copy.deepcopy(s)
                 snaps["n_props"] = len(s)
                 snaps["n_charts"] = len(s.charts)
-                if fault is None or fault["class"] in ("fs", "line"):
+                if base.get("body") == "noop" and (fault is None or fault["class"] in ("fs", "line")):
+                    s.title = s.title  # a body that makes no net change
+                elif fault is None or fault["class"] in ("fs", "line"):
                     for op in script:
                         apply_body(s, op, ext)
                 elif fault["class"] == "body":
                     for i, op in enumerate(script):
                         if i == fault["pos"]:
                             thrown = make_exc(fault["exc"])
-                            thrown_args = thrown.args
+                            thrown_args = (thrown.args, thrown.__cause__, thrown.__context__, thrown.__suppress_context__)
                             raise thrown
                         apply_body(s, op, ext)
                     thrown = make_exc(fault["exc"])
-                    thrown_args = thrown.args
+                    thrown_args = (thrown.args, thrown.__cause__, thrown.__context__, thrown.__suppress_context__)
                     raise thrown
                 else:
                     apply_body(s, script[0], ext)
@@ -268,6 +273,17 @@ def load_codes():
 
 def make_exc(name):
     import simfile
+
+    if name == "Chained":
+        inner = KeyError("inner cause")
+        e = ValueError("outer")
+        e.__cause__ = inner          # what `raise ValueError("outer") from inner` sets
+        e.__suppress_context__ = True
+        return e
+    if name == "InExcept":
+        e = LookupError("raised while handling another exception")
+        e.__context__ = OSError("the exception being handled")  # what raising inside an except block sets
+        return e
 
     return {"ValueError": ValueError("boom"), "KeyError": KeyError("boom"), "Custom": Custom("boom"),
             "StopIteration": StopIteration("boom"), "KeyboardInterrupt": KeyboardInterrupt(), "SystemExit": SystemExit(3),
@@ -343,7 +359,10 @@ def check(ctx, case):
             ctx.violation("control:fault-free-run-raised", {"base": base, "exc": repr(ctl["raised"])})
             return
         ok = ctl["after"].get(ctl["out"] or ctl["in"]) != ctl["before"].get(ctl["out"] or ctl["in"])
-        ctx.expect(ok, "control:fault-free-run-wrote-nothing", base=base)
+        if base.get("body") != "noop":
+            ctx.expect(ok, "control:fault-free-run-wrote-nothing", base=base)
+        else:
+            ctx.feat("noop_body_with_backup_requested")
         if ctl["bak"]:
             ctx.expect(parses_to(ctl["after"].get(ctl["bak"], b""), ctl["enc"], ctl["world_kind"], ctl["snaps"]["S0"], cls),
                        "control:backup-does-not-parse-to-the-original", base=base)
@@ -398,7 +417,10 @@ def judge(ctx, base, fault, r, cls, one):
         if fault["exc"] == "CancelMutation":
             ctx.expect(r["raised"] is None, "body-exception:CancelMutation-not-swallowed", **detail)
         else:
-            same = r["raised"] is r["thrown"] and getattr(r["raised"], "args", None) == r.get("thrown_args")
+            e = r["raised"]
+            same = e is r["thrown"] and r.get("thrown_args") is not None and e.args == r["thrown_args"][0] \
+                and e.__cause__ is r["thrown_args"][1] and e.__suppress_context__ == r["thrown_args"][3] \
+                and (r["thrown_args"][2] is None or e.__context__ is r["thrown_args"][2])
             ctx.expect(same, f"body-exception:{fault['exc']}-not-propagated-unchanged", **detail)
         return
 
